@@ -613,6 +613,45 @@ copy_data(struct attr_data *dest, const struct attr_data *src)
 	}
 }
 
+/** Unlink an attribute from its parent directory.
+ * @param attr  Attribute data (must have a parent).
+ */
+static void
+unlink_attr(struct attr_data *attr)
+{
+	struct attr_data **pprev = &attr->parent->dir;
+
+	while (*pprev != attr)
+		pprev = &(*pprev)->next;
+	*pprev = attr->next;
+}
+
+/** Remove a cloned subtree from the global attribute index.
+ * @param dict  Attribute dictionary.
+ * @param attr  Root of the cloned subtree.
+ *
+ * Entries in @c global_attrs that refer to attributes in the subtree
+ * are pointed back to the fallback dictionary.
+ */
+static void
+unclone_globals(struct attr_dict *dict, struct attr_data *attr)
+{
+	struct attr_data *child;
+
+	if (attr->template->type == KDUMP_DIRECTORY)
+		for (child = attr->dir; child; child = child->next)
+			unclone_globals(dict, child);
+
+	if (attr->template >= global_keys &&
+	    attr->template < &global_keys[NR_GLOBAL_ATTRS]) {
+		enum global_keyidx idx = attr->template - global_keys;
+		if (dict->global_attrs[idx] == attr)
+			dict->global_attrs[idx] = dict->fallback
+				? dict->fallback->global_attrs[idx]
+				: NULL;
+	}
+}
+
 /** Clone an attribute.
  * @param dict    Destination attribute dictionary.
  * @param dir     Target attribute directory.
@@ -629,8 +668,11 @@ clone_attr(struct attr_dict *dict, struct attr_data *dir,
 	if (!newattr)
 		return NULL;
 
-	if (attr_isset(orig) && !copy_data(newattr, orig))
+	if (attr_isset(orig) && !copy_data(newattr, orig)) {
+		unlink_attr(newattr);
+		dealloc_attr(newattr);
 		return NULL;
+	}
 
 	/* If this is a global attribute, update global_attrs[] */
 	if (newattr->template >= global_keys &&
@@ -718,10 +760,13 @@ clone_attr_path(struct attr_dict *dict, struct attr_data *orig)
 	return attr;
 
  err:
-	while (attr != base) {
-		struct attr_data *next = attr->parent;
+	if (attr != base) {
+		/* Remove the topmost new attribute with everything below. */
+		while (attr->parent != base)
+			attr = attr->parent;
+		unclone_globals(dict, attr);
+		unlink_attr(attr);
 		dealloc_attr(attr);
-		attr = next;
 	}
 	return NULL;
 }
